@@ -354,6 +354,33 @@ class ValidateFx(Job):
         return [("accepted only when every token is a number, statistic, operator or parenthesis", acc)]
 
 
+TEST_ENTRIES = {"gross_range_test": ("suspect_min", "suspect_max", "fail_min", "fail_max"), "spike_test": ("suspect_threshold", "fail_threshold"),
+                "flat_line_test": ("suspect_threshold", "fail_threshold", "tolerance"), "rate_of_change_test": ("threshold",)}
+
+
+class ValidateConfig(ValidateFx):
+    """the same acceptance condition through QcVariableConfig(...) itself: the symbolic specification sits in one entry of one test
+    section, every other entry is a valid concrete one (every entry of every section is a limit expression, bbox excepted)"""
+
+    def __init__(self, L, test, key):
+        ValidateFx.__init__(self, L)
+        self.test, self.key = test, key
+        self.name = f"QcVariableConfig: {test}.{key} of length<={L}"
+
+    def params(self):
+        return {"max_length": self.L, "alphabet": ALPHA, "test": self.test, "entry": self.key}
+
+    def invoke(self, mods, S, K):
+        cc = mods.config_creator.config_creator
+        arg = SplitStr(S.s) if K.sym else S.s
+        tests = {t: {k: "mean" for k in keys} for t, keys in TEST_ENTRIES.items()}
+        tests["location_test"] = {"bbox": [0, 0, 1, 1]}
+        tests[self.test][self.key] = arg
+        cc.QcVariableConfig({"variable": "temperature", "bbox": [0, 0, 1, 1], "start_time": "2021-01-01", "end_time": "2021-01-02",
+                             "tests": tests})
+        return "accepted"
+
+
 # -- create_config on a time-constant climatology ------------------------------------------------------------------------------
 def parse_fx(text):
     """expression text (space separated, as QcVariableConfig requires) -> tree, by a tiny precedence parser of the same grammar"""
@@ -560,6 +587,9 @@ def jobs(tier):
     out.append(ValidateFx(4 if tier == "quick" else 5))
     out.append(EvalFx(0, [("bin", "-", ("bin", "-", ("leaf", "mean"), ("leaf", "std")), ("leaf", "max"))], "clean", canary="right_assoc"))
     out.append(ValidateFx(3, canary="drop_std"))
+    for t, keys in TEST_ENTRIES.items():
+        for k in keys:
+            out.append(ValidateConfig(2 if tier == "quick" else 3, t, k))
     out.append(CreateConfig(2, 2))
     out.append(CreateConfig(2, 2, axis="jan-1", dates="2 days"))
     out.append(CreateConfig(2, 2, axis="dec-31-leap", dates="new year"))
@@ -574,6 +604,7 @@ def jobs(tier):
 
 FUNCTIONS = ["ioos_qc/config_creator/fx_parser.py:evaluate_stack", "ioos_qc/config_creator/fx_parser.py:eval_fx",
              "ioos_qc/config_creator/config_creator.py:QcVariableConfig._validate_fx",
+             "ioos_qc/config_creator/config_creator.py:QcVariableConfig.__init__ (every entry of every test section)",
              "ioos_qc/config_creator/config_creator.py:QcConfigCreator.create_config", "ioos_qc/config_creator/config_creator.py:QcConfigCreator._get_stats",
              "ioos_qc/config_creator/config_creator.py:QcConfigCreator._get_subset",
              "ioos_qc/config_creator/config_creator.py:QcConfigCreator.__get_daily_interp_subset",
